@@ -132,7 +132,7 @@ fn check_d<const D: usize>(c: &Case, ctx: &mut Ctx) -> Result<(), Failure> {
                         let dod_round = 8.0 * (ev.ne as f64 + 2.0) * EPS * (g.wsum_abs() + (ev.nl * D) as f64);
                         let tol_j = 64.0 * EPS * (1.0 + ev.dod.abs() * (o2.v.ln().abs() + ev.out.v.ln().abs())) + 2.0 * (kx.abs() as f64) * std::f64::consts::LN_2 * dod_round;
                         // every factor of the weight must stay a normal f64 number (no subnormal intermediates)
-                        let factors_normal = ev.dod.abs() * o2.v.ln().abs() < 600.0 && ev.dod.abs() * ev.out.v.ln().abs() < 600.0 && (D as f64 / 2.0) * o2.u.ln().abs() < 600.0 && o2.jac > 1e-250 && o2.jac < 1e250;
+                        let factors_normal = (2.0 * kx as f64 * dod_sut).abs() * std::f64::consts::LN_2 < 600.0 && ev.dod.abs() * o2.v.ln().abs() < 600.0 && ev.dod.abs() * ev.out.v.ln().abs() < 600.0 && (D as f64 / 2.0) * o2.u.ln().abs() < 600.0 && o2.jac > 1e-250 && o2.jac < 1e250;
                         if factors_normal && want_j.is_finite() && want_j > 1e-250 && want_j < 1e250 && !(rel(o2.jac, want_j) <= tol_j) {
                             fail!("jacobian-scaling", "jacobian does not scale as (2^{kx})^(-2 dod): {:e} vs {want_j:e}; case {c:?}", o2.jac);
                         }
